@@ -60,6 +60,22 @@ def run(chk):
             chk.diverge(dict(sig, clause="result"), dict(case, observed=got))
         if (qr.snapshot(x), qr.snapshot(y)) != (sx, sy):
             chk.diverge(dict(sig, clause="operands-unchanged"), case)
+        # in-place conversion of an ndarray magnitude (the converters' in-place branches)
+        if op == "to":
+            U = fregs[ac]
+            xa = U.Quantity(np.array([float(F(*a["m"]))] * 2), qr.mkq(U, a, float).units)
+            try:
+                with np.errstate(all="ignore"):
+                    xa.ito(qr.mkq(U, b, float).units)
+                g = {"k": "ok", "m": float(xa.magnitude[0]), "u": {k: qr.frac(v) for k, v in xa.unit_items()}}
+            except Exception as e:
+                g = {"k": qr.kind_of_exception(e)}
+            if exp["k"] == "ok" and exp["m"] is None:
+                okk = g["k"] == "ok"
+            else:
+                okk = qr.approx_equal(g, exp, 1e-9)
+            if not okk:
+                chk.diverge(dict(sig, clause="result", form="ndarray-ito", observed=g["k"]), dict(case, observed=g))
         # ndarray in-place twins (only reached with array magnitudes)
         if op in ("add", "sub", "mul", "div") and not islog:
             U = fregs[ac]
